@@ -64,14 +64,19 @@ func runKV(c *sim.Ctx) {
 		fs.begin(0, 0)
 		var label string
 		var err error
+		var redo func(m2 *kvstorage.Manager) error
 		if t.Chance("kv-remove", 1, 3) {
 			label = "remove"
 			err = m.RemoveStorageValue(typ, key)
+			redo = func(m2 *kvstorage.Manager) error { return m2.RemoveStorageValue(typ, key) }
 		} else {
 			label = "add"
 			val := strings.Repeat("v", 1+t.Int("kv-val-len", 300)) + fmt.Sprint(c.Step)
 			err = m.AddStorageValue(typ, key, val)
+			redo = func(m2 *kvstorage.Manager) error { return m2.AddStorageValue(typ, key, val) }
 		}
+		opErr := err
+		retryAt := t.Int("kv-retry-state", 64) // which crash state of this operation is recovered from and retried
 		c.Kind(byte(len(label)), err == nil)
 		c.Logf("kv %s %s %s -> %v (fs ops %d)", label, typ, key, err, len(fs.ops))
 		if len(fs.ops) == 0 {
@@ -83,10 +88,44 @@ func runKV(c *sim.Ctx) {
 		if errB != nil || errA != nil {
 			sim.Harnessf("kv storage unloadable without a crash: %v %v", errB, errA)
 		}
-		for _, st := range fs.crashStates() {
+		states := fs.crashStates()
+		for si, st := range states {
 			c.Count("crash.states")
 			c.State(uint64(len(st.label)), uint64(c.Step), uint64(len(st.files)))
 			got, err := view(st.files)
+			if err == nil && opErr == nil && si == retryAt%len(states) {
+				// recover and retry: the node restarts on the crash state, the client repeats the request that was
+				// interrupted, the node restarts once more: the storage must hold what the completed operation gives
+				scratch++
+				d := fmt.Sprintf("%s/kvretry%d", c.Dir, scratch)
+				materialise(d, st)
+				m2, merr := kvstorage.NewManager(kvstorage.Config{StorageDir: d, EnableStorageAPI: true,
+					EnabledStorages: []kvstorage.Type{kvstorage.TypeTxIDNotes, kvstorage.TypeGeneral}})
+				if merr == nil {
+					rerr := redo(m2)
+					c.Count("fault.crash_recover_retry")
+					again, verr := kvView(d)
+					if verr != nil {
+						c.Violate("crash-node-does-not-start", "kv:after-retry:"+stateKind(st.label), "crash during kv %s at [%s], restart, the same request again (%v), restart: the storage manager cannot start: %v", label, st.label, rerr, verr)
+						return
+					}
+					for _, ty := range []string{string(kvstorage.TypeTxIDNotes), string(kvstorage.TypeGeneral)} {
+						want := after[ty]
+						if rerr != nil {
+							// the repeated request was refused (e.g. removing a key that the crash state no longer has): nothing may change
+							want = got[ty]
+						}
+						if again[ty] != want {
+							lost := "changed"
+							if again[ty] == "" {
+								lost = "reset-to-empty"
+							}
+							c.Violate("crash-retry-content", "kv:"+lost+":"+stateKind(st.label), "crash during kv %s at [%s], restart, the same request again (%v), restart: storage %q does not hold the content of the completed operation (%s)", label, st.label, rerr, ty, lost)
+							return
+						}
+					}
+				}
+			}
 			if err != nil {
 				c.Violate("crash-node-does-not-start", "kv:"+stateKind(st.label), "after a crash during kv %s at [%s] the storage manager cannot start: %v", label, st.label, err)
 				return
